@@ -48,6 +48,13 @@ stock_demo = demo.replace(wt + "/_build", "/repo/_build").replace(wt, "/repo") i
 # the demonstration file itself lives in the seed dir: keep that path
 stock_demo = stock_demo.replace("/repo/" + os.path.basename(out), out)
 rc_stock, o_stock = sh("cd /repo && timeout 300 bash -c %s" % __import__("shlex").quote(stock_demo), timeout=400)
+if rc_stock != 0 and demo:
+    # the demonstration has the worktree path baked in (a script): confirm "passes without the change" in the worktree itself
+    pd = os.path.join(out, "patch.diff")
+    sh("git -C %s apply -R %s && cmake --build %s/_build >/dev/null 2>&1" % (wt, pd, wt))
+    rc_stock, o_stock = sh("cd %s && timeout 600 bash -c %s" % (wt, __import__("shlex").quote(demo)), timeout=700)
+    sh("git -C %s apply %s && cmake --build %s/_build >/dev/null 2>&1" % (wt, pd, wt))
+    res["demo_stock_in_worktree_reverse_applied"] = True
 res["demo_modified_rc"] = rc_mod
 res["demo_stock_rc"] = rc_stock
 res["demo_modified_tail"] = o_mod[-300:]
@@ -58,7 +65,9 @@ bdir = "/tmp/seedbuild-" + os.path.basename(out)
 env["VERIF_REPO"] = wt
 env["VERIF_BUILD"] = bdir
 res["checks"] = {}
-for p in [prop] + extra_props:
+if "--keep-checks" in sys.argv:
+    res["checks"] = json.load(open(os.path.join(out, "eval.json")))["checks"]
+for p in ([] if "--keep-checks" in sys.argv else [prop] + extra_props):
     t0 = time.time()
     cmd = "cd /verif && python3 verif.py check %s --tier %s %s" % (p, tier, ("--seconds " + seconds) if seconds else "")
     rc, o = sh(cmd, timeout=7200, env=env)
